@@ -1,3 +1,5 @@
+use std::panic::{catch_unwind, AssertUnwindSafe};
+
 use bgpfu::RpslEvaluator;
 use ip::traits::PrefixSet;
 
@@ -36,14 +38,26 @@ impl Evaluate for Candidate {
             %self.filter_expr,
             "trying to evaluate filter expression"
         );
-        let ranges = evaluator
-            .evaluate(self.filter_expr.clone())
-            .map_err(|err| {
+        // Some syntactically valid expressions (`PeerAS`, AS-path regular expressions, attribute
+        // matches) are not supported by the evaluator, which panics on them. That must not abort
+        // the evaluation of the other policies.
+        let ranges = catch_unwind(AssertUnwindSafe(|| {
+            evaluator.evaluate(self.filter_expr.clone())
+        }))
+        .map_err(|_| {
+            tracing::error!(
+                "evaluation of filter expression {} panicked (unsupported construct?)",
+                self.filter_expr,
+            );
+        })
+        .and_then(|result| {
+            result.map_err(|err| {
                 tracing::error!(
                     "failed to evaluate filter expression {}: {err:#}",
                     self.filter_expr,
                 );
             })
+        })
             .map(|set| {
                 let (ipv4, ipv6) = set.as_partitions();
                 (ipv4.ranges().collect(), ipv6.ranges().collect())
